@@ -108,9 +108,12 @@ fn cogen_imprecise(c: &Components) -> bool {
 
 /// Compare a normalized component set with the one obtained by printing and re-reading it.
 fn check_components_roundtrip(c: &Components, c2: &Components, exact_outputs: bool) -> Option<Violation> {
-    // metadata
-    let m1: Vec<(String, String)> = c.meta.iter().map(|m| (m.key.clone(), m.value.clone())).collect();
-    let m2: Vec<(String, String)> = c2.meta.iter().map(|m| (m.key.clone(), m.value.clone())).collect();
+    // metadata: same entries; their order matters only among entries with the same key (the first one is the
+    // one in force), so both sides are stably sorted by key before the comparison
+    let mut m1: Vec<(String, String)> = c.meta.iter().map(|m| (m.key.clone(), m.value.clone())).collect();
+    let mut m2: Vec<(String, String)> = c2.meta.iter().map(|m| (m.key.clone(), m.value.clone())).collect();
+    m1.sort_by(|a, b| a.0.cmp(&b.0));
+    m2.sort_by(|a, b| a.0.cmp(&b.0));
     if m1 != m2 {
         let i = (0..m1.len().min(m2.len())).find(|&i| m1[i] != m2[i]).unwrap_or(m1.len().min(m2.len()));
         return Some(Violation::new(
@@ -272,8 +275,10 @@ fn residual(e: &Energy, resid_tol: &dyn Fn(&str) -> Vec<f64>) -> bool {
 }
 
 fn check_factors_roundtrip(f: &Factors, f2: &Factors) -> Option<Violation> {
-    let m1: Vec<(String, String)> = f.wmeta.iter().map(|m| (m.key.clone(), m.value.clone())).collect();
-    let m2: Vec<(String, String)> = f2.wmeta.iter().map(|m| (m.key.clone(), m.value.clone())).collect();
+    let mut m1: Vec<(String, String)> = f.wmeta.iter().map(|m| (m.key.clone(), m.value.clone())).collect();
+    let mut m2: Vec<(String, String)> = f2.wmeta.iter().map(|m| (m.key.clone(), m.value.clone())).collect();
+    m1.sort_by(|a, b| a.0.cmp(&b.0));
+    m2.sort_by(|a, b| a.0.cmp(&b.0));
     if m1 != m2 {
         return Some(Violation::new("roundtrip_metadata", "factors", format!("factor metadata differ after write-out/read-back: {:?} vs {:?}", m1, m2)));
     }
